@@ -150,7 +150,8 @@ def model_value(m, term):
 # engine
 
 class Engine:
-    def __init__(self, branch_timeout_ms=3000, verify_timeout_ms=10000, seed=0):
+    def __init__(self, branch_timeout_ms=3000, verify_timeout_ms=10000, seed=0, sqrt_mono=False):
+        self.sqrt_mono = sqrt_mono
         self.branch_timeout_ms = branch_timeout_ms
         self.verify_timeout_ms = verify_timeout_ms
         self.s = z3.Solver()
@@ -959,7 +960,7 @@ def sym_sqrt(x):
     # redundant (implied) monotonicity facts against the square roots already taken on this path: they let the solver
     # decide comparisons between two roots from the comparison of their arguments
     prev = ENG.memo.setdefault('sqrt!all', [])
-    for (xj, rj) in prev[-6:]:
+    for (xj, rj) in (prev[-6:] if ENG.sqrt_mono else []):
         cs.append((xz <= xj) == (r <= rj))
     prev.append((xz, r))
     ENG.assume(z3.And(cs), check=False)
